@@ -3,6 +3,7 @@
 
      flow  <max_size> <max_fds> <event>...     the faithful machine
      sflow <max_size> <max_fds> <event>...     the machine with the seeded crossing test (<= for <), for diagnostics
+     pflow <max_size> <max_fds> <event>...     the machine before /repo d42cc8a (limit setters without check_read_watch), for diagnostics
      tflow <max_size> <max_fds> <event>...     the faithful machine behind a socket and a message loader (see run_tflow)
 
    events:  A<size>,<nfds>   Arrive            R<k>  Release k (adjusts only)      N  Notify
@@ -49,13 +50,13 @@ let show (t : transport) : string =
   Printf.sprintf "%d,%d,%s,%s,%s" (int_of_z t.t_counter.c_size) (int_of_z t.t_counter.c_fd) (b2s t.t_counter.c_pending)
     (b2s (read_watch_enabled t)) (b2s (may_queue_more t))
 
-let run_flow cross (ms :: mf :: toks) =
+let run_flow cross recheck (ms :: mf :: toks) =
   let t0 = transport_init (z_of_int (int_of_string ms)) (z_of_int (int_of_string mf)) in
   let out = Buffer.create 256 in
   let rec go t = function
     | [] -> ()
     | tok :: r ->
-        (match run cross t (events_of tok) with
+        (match run cross recheck t (events_of tok) with
          | None -> Buffer.add_string out "F"
          | Some t' -> Buffer.add_string out (show t'); if r <> [] then Buffer.add_char out ' '; go t' r)
   in
@@ -125,6 +126,7 @@ let run_tflow (ms :: mf :: toks) =
   go t0 toks; Buffer.contents out
 
 let () =
-  reg "flow" (run_flow crossed);
-  reg "sflow" (run_flow crossed_seeded);
+  reg "flow" (run_flow crossed true);
+  reg "sflow" (run_flow crossed_seeded true);
+  reg "pflow" (run_flow crossed false);
   reg "tflow" run_tflow
